@@ -150,12 +150,28 @@ def _check_minimize(prog, rep, fi, call):
     if len(recs) != 1:
         raise AnalysisError(f"{fname}: cannot identify the constraint record list passed to minimize()")
     R = next(iter(recs))
+    # `constraints_arg = records if records else ()`: the list handed over is a local derived from the record list
+    R_names = {R}
+    for _ in range(3):
+        vals = [v for v in assigns.get(R, []) if isinstance(v, ast.AST)]
+        inner = {n.id for v in vals for n in ast.walk(v) if isinstance(n, ast.Name) and n.id in assigns and n.id != R}
+        if len(vals) == 1 and len(inner) == 1 and isinstance(vals[0], (ast.IfExp, ast.Name, ast.BoolOp)):
+            R = next(iter(inner))
+            R_names.add(R)
+        else:
+            break
 
     # ---- feasibility loops over R evaluating c["fun"](<res>.x)
     loops = []
     for n in walk_local(fi.node, include_self=False):
-        if isinstance(n, ast.For) and isinstance(n.iter, ast.Name) and n.iter.id == R and isinstance(n.target, ast.Name) and n.lineno > call.lineno:
+        if isinstance(n, ast.For) and isinstance(n.iter, ast.Name) and n.iter.id in R_names and isinstance(n.target, ast.Name) and n.lineno > call.lineno:
             loops.append(n)
+    if not loops:
+        for n in walk_local(fi.node, include_self=False):
+            if isinstance(n, ast.For) and isinstance(n.target, ast.Name) and n.lineno > call.lineno and any(
+                    isinstance(x, ast.Call) and isinstance(x.func, ast.Subscript) and isinstance(x.func.value, ast.Name) and x.func.value.id == n.target.id and isinstance(x.func.slice, ast.Constant) and x.func.slice.value == "fun"
+                    for x in ast.walk(n)):
+                raise AnalysisError(f"{fname}: the loop at line {n.lineno} evaluates constraint records at the returned point, but it ranges over `{src(n.iter)[:40]}`, which is not read back to the list handed to minimize() (`{R}`): not decided")
     flagsV = set()
     G = FALSE
     loop_ok = []
